@@ -40,7 +40,7 @@ def run(tier, replay):
         json.dump(keycases, open(kj, "w"))
         ov = {"internal/ssh/server/vcommon_test.go": ("common/vcommon_test.go", "server"),
               "internal/ssh/server/c09_test.go": "sshserver/c09_test.go"}
-        rc, out = vlib.go_test(wd, "./internal/ssh/server", ov, "TestC09Keys", env={"VERIF_CASES": kj, "VERIF_OUT": ko}, timeout=1200)
+        rc, out = vlib.go_test(wd, "./internal/ssh/server", ov, "TestC09Keys", env={"VERIF_CASES": kj, "VERIF_OUT": ko, "VERIF_N": 40 if tier == "quick" else 1500}, timeout=3000)
         if rc != 0 or not os.path.exists(ko):
             raise vlib.Inconclusive("key harness failed\n" + out[-2500:])
         kres = json.load(open(ko))
